@@ -1,5 +1,6 @@
 import PlzVerif.Lemmas.Label
 import PlzVerif.Model.LabelFacts
+import PlzVerif.Lemmas.LabelWalk
 /-!
 C20  Build labels round-trip and target patterns select exactly their targets.
 
@@ -130,6 +131,72 @@ theorem C20_includes_selects_exactly (p s : Str) (pkgs : List Str) :
 theorem C20_experimental_exact (dirs : List Str) (l : Label) :
     isExperimental facts dirs l = true ↔ l.sub = [] ∧ ∃ d ∈ dirs, Under d l.pkg :=
   isExperimental_iff facts includesSlash_ok dirs l
+
+/-! ## The command line: `//p/...` is expanded by walking the directory tree (src/plz/plz.go `findOriginalTask`,
+`FindAllBuildFiles`), not by `Includes` — the walk must select what `Includes` selects
+
+The walk is C22's model (`Model/Walk.lean`), its callback interpreted from the formulas regenerated from plz.go on this
+run (`LabelWalk.walkFacts` = `Props.C22.facts`; the C20 check runs the c22 extractor too), so these obligations depend
+on how `FindAllBuildFiles` treats experimental directories and the blacklist. -/
+
+section CommandLine
+open PlzVerif.Walk PlzVerif.LabelWalk
+
+/-- **Command-line expansion selects exactly what the pattern includes, minus the documented exclusions.**
+    For every repository listing `cs` of the directory `p`, experimental directories `exp` and blacklist `bl`:
+    the BUILD files the walk sends are (a permutation of) the specified ones, and the BUILD file of a package `q` is
+    among them iff `//p/...` `Includes` `//q:all` (label model, component-wise), `q` is a directory of the repository
+    holding a BUILD file, and no directory from `p` down to `q` is excluded — `plz-out`, hidden, an experimental
+    directory (root-relative whole path) or blacklisted (by name or leading whole components).  In particular a
+    non-experimental package with a deeper component that merely has an experimental directory's NAME is selected. -/
+theorem C20_cmdline_expansion_exact (exp bl : List Walk.Name) (p : List Walk.Name) (cs : Forest)
+    (w : Forest.wf cs = true) (hn : Forest.nodup cs = true) (g : goodPath p = true) :
+    (findAll walkFacts ⟨[buildName], exp, bl, []⟩ p (.dir cs)).Perm
+        ((spec plzOut ⟨[buildName], exp, bl, []⟩ p (.dir cs)).map nameOf) ∧
+    ∀ q : List Walk.Name, goodPath q = true →
+      ((q ++ [buildName]) ∈ spec plzOut ⟨[buildName], exp, bl, []⟩ p (.dir cs) ↔
+        includes facts ⟨joinSlash p, dots, []⟩ ⟨joinSlash q, allName, []⟩ = true ∧
+        ∃ ds k, dirAt cs (q.drop p.length) = some ds ∧ Forest.get buildName ds = some (.leaf k) ∧
+          ∀ j, j ≤ q.length - p.length →
+            specExcluded plzOut ⟨[buildName], exp, bl, []⟩ (q.take (p.length + j)) = false) := by
+  refine ⟨?_, ?_⟩
+  · rw [walkFacts_eq]
+    exact PlzVerif.Props.C22.C22_exact_set ⟨[buildName], exp, bl, []⟩ p cs w g rfl
+  · intro q gq
+    rw [PlzVerif.Props.C22.C22_spec_declarative ⟨[buildName], exp, bl, []⟩ p cs hn,
+      includes_iff_prefix facts includesSlash_ok p q allName [] [] g gq]
+    constructor
+    · rintro ⟨rel, ds, b, k, hx, hd, hb, _, hex⟩
+      have hx' : q ++ [buildName] = (p ++ rel) ++ [b] := by simpa using hx
+      obtain ⟨hq, hbn⟩ := List.append_inj' hx' (by simp)
+      have hbn' : b = buildName := by simpa using hbn.symm
+      subst hq; subst hbn'
+      refine ⟨List.prefix_append p rel, ds, k, by simpa using hd, hb, ?_⟩
+      intro j hj
+      have := hex j (by simpa using hj)
+      have e : (p ++ rel).take (p.length + j) = p ++ rel.take j := by
+        rw [List.take_append]; simp [List.take_of_length_le]
+      rw [e]; exact this
+    · rintro ⟨⟨rel, rfl⟩, ds, k, hd, hb, hex⟩
+      refine ⟨rel, ds, buildName, k, by simp, by simpa using hd, hb, by simp, ?_⟩
+      intro j hj
+      have := hex j (by simpa using hj)
+      have e : (p ++ rel).take (p.length + j) = p ++ rel.take j := by
+        rw [List.take_append]; simp [List.take_of_length_le]
+      rw [e] at this; exact this
+
+/-- The seed shape, positively: experimental dir `experimental` at the root; `//src/...` selects the
+    NON-experimental packages `src/experimental` and `src/experimental/deep`, `//...` selects them too and leaves
+    out only `experimental/x`. -/
+example :
+    let repo := repoOf [[ "src".toList, "experimental".toList ], [ "src".toList, "experimental".toList, "deep".toList ],
+      [ "experimental".toList, "x".toList ], [ "srcx".toList ]]
+    cmdlineSelect walkFacts [buildName] ["experimental".toList] [] ["src".toList] repo =
+      some ["src/experimental".toList, "src/experimental/deep".toList] ∧
+    cmdlineSelect walkFacts [buildName] ["experimental".toList] [] [] repo =
+      some ["src/experimental".toList, "src/experimental/deep".toList, "srcx".toList] := by decide
+
+end CommandLine
 
 /-! ## Matches: the sandbox opt-out whitelist -/
 
